@@ -54,7 +54,7 @@ THOROUGH = dict(cases=150000, workers=16, timecap=600)
 REQUIRED = {"received_exact": 5000, "received_computed": 1000, "value_exact": 5000, "vector_rotation": 500,
             "periodic_membership": 2000, "periodic_congruence": 2000, "mask_points": 1000,
             "sampler_entries": 5000, "sampler_grid": 1000, "sampler_alias": 5000,
-            "nested_leaf_args": 5000, "nested_value": 5000}
+            "nested_leaf_args": 5000, "nested_value": 5000, "stored_leaf_state": 3000}
 
 ULPS = 16.0
 TINY = 1e-300
@@ -77,7 +77,7 @@ FAMILIES = ([("IsoMapper2D", 2), ("IsoMapper3D", 2), ("Swizzle2D", 2), ("Swizzle
             + [(n, 4) for n in CYL] + [(n, 2) for n in CLAMP_IN] + [(n, 2) for n in CLAMP_OUT]
             + [(n, 5) for n in SCALAR_PERIODIC] + [(n, 4) for n in VECTOR_PERIODIC] + [("PolygonMask2D", 8)]
             + [(n, 2) for n in RANGE_SAMPLERS] + [(n, 1.5) for n in POINT_SAMPLERS] + [(n, 1.5) for n in GRID_SAMPLERS]
-            + [("nested", 14), ("nested_vector", 4)])
+            + [("nested", 14), ("nested_vector", 4), ("stored_leaf", 5)])
 
 _NDIM = {"IsoMapper2D": 2, "IsoMapper3D": 3, "Swizzle2D": 2, "Swizzle3D": 3, "Slice2D": 1, "Slice3D": 2,
          "AxisymmetricMapper": 3, "VectorAxisymmetricMapper": 3, "CylindricalTransform": 3,
@@ -572,6 +572,8 @@ def gen_case(rng, tier):
 def _gen_named(rng, name):
     if name in ("nested", "nested_vector"):
         return _gen_nested(rng, name == "nested_vector")
+    if name == "stored_leaf":
+        return _gen_stored(rng)
     case = {"w": name}
     npt = int(rng.integers(6, 41))
     if name in ("IsoMapper2D", "IsoMapper3D"):
@@ -903,7 +905,7 @@ def run_case(case, ctx):
         return _run_mask(case, ctx)
     if name in SAMPLER_ND:
         return _run_sampler(case, ctx)
-    if name in ("nested", "nested_vector"):
+    if name in ("nested", "nested_vector", "stored_leaf"):
         return _run_nested(case, ctx)
     return _run_wrapper(case, ctx)
 
@@ -1702,6 +1704,32 @@ def _gen_nested(rng, vector):
     return case
 
 
+def _gen_stored(rng):
+    """evaluation SEQUENCE (several angles, repeated points) of 0-2 wrappers around a function handing out a stored object"""
+    vector = rng.random() < 0.8
+    depth = int(rng.integers(0, 3)) if vector else int(rng.integers(1, 3))
+    d0 = 3 if (vector and rng.random() < 0.6) else int(rng.integers(2 if vector and depth == 0 else 1, 4))
+    chain = _n_chain(rng, d0, vector, depth, allow_iso=False)
+    ld = chain["leaf_dim"]
+    kind = "constant" if (ld >= 2 or not vector) and rng.random() < 0.5 else "stored"
+    if not vector:
+        kind = "constant"
+    val = [float(t) for t in rng.normal(size=3) * 10 ** rng.uniform(-1, 1)] if vector else float(rng.normal() * 10 ** rng.uniform(-1, 1))
+    chain["leaf"] = {"kind": kind, "value": val}
+    pts = _n_points(rng, chain, int(rng.integers(6, 16)))
+    for _ in range(int(rng.integers(3, 9))):                 # ordinary radii at several toroidal angles
+        th = float(rng.uniform(-math.pi, math.pi))
+        r = float(rng.uniform(0.2, 5))
+        p = [r * math.cos(th), r * math.sin(th), float(rng.uniform(-2, 2))][:d0]
+        pts.insert(int(rng.integers(len(pts) + 1)), p)
+    for _ in range(int(rng.integers(2, 6))):                 # repeated points
+        pts.insert(int(rng.integers(len(pts) + 1)), list(pts[int(rng.integers(len(pts)))]))
+    case = {"w": "stored_leaf", "vector": vector, "chain": chain, "pts": pts}
+    if (depth == 0 or rng.random() < 0.3) and not (vector and d0 == 1):
+        case["sampler"] = "points"
+    return case
+
+
 def _n_names(chain):
     out = []
     for L in chain["layers"]:
@@ -1729,10 +1757,47 @@ def _n_relation(chain):
     return ""
 
 
+class StoredLeaf:
+    """Innermost function that hands out the SAME stored object on every call: a Python callable returning a kept
+    Vector3D ("stored"), or the library's ConstantVector2D/3D / Constant1D/2D/3D ("constant", no recording possible)."""
+
+    def __init__(self, cm, spec, vector, dim):
+        self.calls = []
+        self.vector = vector
+        self.constant = spec["kind"] == "constant"
+        self.v0 = tuple(float(t) for t in spec["value"]) if vector else float(spec["value"])
+        if vector:
+            from raysect.core.math import Vector3D
+            self._v = Vector3D(*self.v0)
+        if self.constant:
+            self.target = getattr(cm, ("ConstantVector%dD" if vector else "Constant%dD") % dim)(self._v if vector else self.v0)
+            self._probe = [0.0] * dim
+        else:
+            self.target = self
+
+    def __call__(self, *args):
+        self.calls.append((tuple(float(a) for a in args), self.v0))
+        return self._v
+
+    def value(self, args):
+        return self.v0
+
+    def stored_now(self):
+        """what the wrapped function holds / hands out now"""
+        if self.constant:
+            r = self.target(*self._probe)
+            return _vec(r) if self.vector else r
+        return _vec(self._v)
+
+
 def _n_build(cm, chain, vector):
     """construct the real nested object; returns (object, leaf recorder, per-layer runtime info)"""
-    leaf = Rec(chain["f"], vector=vector)
-    obj = leaf
+    if chain.get("leaf"):
+        leaf = StoredLeaf(cm, chain["leaf"], vector, chain["leaf_dim"])
+        obj = leaf.target
+    else:
+        leaf = Rec(chain["f"], vector=vector)
+        obj = leaf
     rt = [None] * len(chain["layers"])
     for i in range(len(chain["layers"]) - 1, -1, -1):
         L = chain["layers"][i]
@@ -1853,6 +1918,8 @@ def _n_judge(ctx, label, chain, rt, leaf, coords, vector, x, rel=""):
     for L in layers:
         coords, geo = _n_forward(L, coords)
         geos.append(geo)
+    if not leaf.calls and getattr(leaf, "constant", False):
+        leaf.calls.append((None, leaf.v0))          # library constant: no recording possible, the value is argument-free
     if not leaf.calls:
         if any(co is None or co[1] != 0.0 for co in coords):
             ctx.skip("nested: innermost function not called and its arguments are not exactly determined: not judged")
@@ -1860,6 +1927,8 @@ def _n_judge(ctx, label, chain, rt, leaf, coords, vector, x, rel=""):
         args = tuple(co[0] for co in coords)
         leaf.calls.append((args, leaf.value(args)))
     for args, _ in leaf.calls:
+        if args is None:
+            continue
         if len(args) != len(coords):
             ctx.viol("nested:%s:leaf-args" % label, "wrong number of arguments reached the innermost function", x=x, got=list(args))
             return ("bad",)
@@ -1936,9 +2005,13 @@ def _n_describe(chain):
 
 def _run_nested(case, ctx):
     cm = _mod(ctx)
-    vector = case["w"] == "nested_vector"
+    vector = bool(case.get("vector", case["w"] == "nested_vector"))
     chain = case["chain"]
-    label = _n_names(chain)
+    label = _n_names(chain) if chain["layers"] else "(no wrapper)"
+    stored = chain.get("leaf")
+    if stored:
+        label += "<%s>" % (("ConstantVector%dD" if vector else "Constant%dD") % chain["leaf_dim"] if stored["kind"] == "constant" else "stored-vector")
+    kept = []                                     # (result object, components when it was returned)
     rel = _n_relation(chain)
     obj, leaf, rt = _n_build(cm, chain, vector)
     ctx.cls("nested:depth%d" % len(chain["layers"]))
@@ -1950,6 +2023,24 @@ def _run_nested(case, ctx):
         x = [float(t) for t in x]
         _n_clear(leaf, rt)
         res = obj(*x)
+        if stored:
+            # the wrapped function must be USED, not modified: what it holds is bit-identical after the call, and results
+            # handed out earlier keep their value
+            ctx.mon("stored_leaf_state")
+            now = leaf.stored_now()
+            if not (now == leaf.v0):
+                ctx.viol("stored-leaf:%s:wrapped-function-state-modified" % label,
+                         "after the evaluation the object stored / returned by the wrapped function is no longer what it was",
+                         x=x, now=list(now) if vector else now, original=list(leaf.v0) if vector else leaf.v0, n_calls_before=len(kept))
+                return
+            for i, (o, snap) in enumerate(kept):
+                ctx.mon("stored_leaf_state")
+                if not (_vec(o) == snap):
+                    ctx.viol("stored-leaf:%s:earlier-result-changed" % label, "a result returned by an earlier evaluation changed its value afterwards",
+                             x=x, earlier_index=i, was=list(snap), now=list(_vec(o)))
+                    return
+            if vector:
+                kept.append((res, _vec(res)))
         if vector:
             res = _vec(res)
         direct.append(res)
@@ -1989,6 +2080,14 @@ def _run_nested(case, ctx):
             for idx in np.ndindex(*[len(a) for a in axes]):
                 r = obj(*[axes[a][i] for a, i in enumerate(idx)])
                 want[idx] = _vec(r) if vector else r
+        if stored:
+            ctx.mon("stored_leaf_state")
+            now = leaf.stored_now()
+            if not (now == leaf.v0):
+                ctx.viol("stored-leaf:%s:wrapped-function-state-modified:by-%s" % (label, fn.__name__),
+                         "after sampling, the object stored / returned by the wrapped function is no longer what it was",
+                         now=list(now) if vector else now, original=list(leaf.v0) if vector else leaf.v0)
+                return
         ctx.mon("nested_value", int(want.size))
         if v.shape != want.shape or not np.array_equal(v, want, equal_nan=True):
             ctx.viol("nested:sampler-of-wrapper:%s:entry" % fn.__name__, "sampler entry differs from the directly evaluated nested wrapper",
@@ -2064,6 +2163,30 @@ def _nested_fixed():
                             "chain": {"layers": [{"c": ("Vector" if vector else "") + "PeriodicTransform%dD" % d, "periods": [po] * d},
                                                  {"c": ("Vector" if vector else "") + "PeriodicTransform%dD" % d, "periods": ([pi_, 0.0, pi_])[:d]}],
                                       "f": (vl if vector else fl)[d], "leaf_dim": d, "dim": d}, "pts": pts(d)})
+    # functions handing out a stored object (kept Vector3D / library constants) under every vector wrapper, the vector
+    # samplers and the scalar wrappers: sequences over several angles with repeated points
+    seq = [[1.0, 0.0, 0.3], [0.0, 2.0, -1.0], [-1.5, 0.0, 0.0], [1.0, 1.0, 2.0], [-0.3, -0.4, 5.0], [0.0, 2.0, -1.0], [1.0, 1.0, 2.0],
+           [-1.5, -0.0, 0.0], [2.5, -0.5, 0.25], [1.0, 0.0, 0.3]]
+    for d0 in (1, 2, 3):
+        for c1, w1 in [(None, d0)] + N_EXPOSE_VEC[d0]:
+            for kind in ("stored", "constant"):
+                if (kind == "constant" and w1 < 2) or (c1 is None and d0 == 1):
+                    continue
+                ch = {"layers": [layer(c1, 0)] if c1 else [], "leaf_dim": w1, "dim": d0, "f": None, "leaf": {"kind": kind, "value": [1.0, 2.0, 3.0]}}
+                case = {"w": "stored_leaf", "vector": True, "chain": ch, "pts": [p[:d0] for p in seq]}
+                if d0 > 1:
+                    case["sampler"] = "points"
+                out.append(case)
+                if c1:
+                    for c2, w2 in N_EXPOSE_VEC[w1]:
+                        if (c1 in _GEOM and c2 in _GEOM) or (kind == "constant" and w2 < 2):
+                            continue
+                        out.append({"w": "stored_leaf", "vector": True, "pts": [p[:d0] for p in seq],
+                                    "chain": {"layers": [layer(c1, 0), layer(c2, 1)], "leaf_dim": w2, "dim": d0, "f": None,
+                                              "leaf": {"kind": kind, "value": [0.0, 1.0, 0.0]}}})
+        for c1, w1 in N_EXPOSE[d0]:
+            out.append({"w": "stored_leaf", "vector": False, "pts": [p[:d0] for p in seq], "sampler": "points",
+                        "chain": {"layers": [layer(c1, 0)], "leaf_dim": w1, "dim": d0, "f": None, "leaf": {"kind": "constant", "value": 0.625}}})
     # depth 3
     out.append({"w": "nested", "chain": {"layers": [{"c": "IsoMapper3D", "g": fl[1]}, {"c": "AxisymmetricMapper"}, {"c": "ClampInput2D", "bounds": [[0.5, 2.0], [None, 1.0]]}],
                                          "f": fl[2], "leaf_dim": 2, "dim": 3}, "pts": pts(3)})
